@@ -7,6 +7,7 @@ set -e
 cd "$(dirname "$0")/.."
 N=${1:-25}; S=${2:-7}
 mkdir -p build/tmp
+make -j16 FLAVOR=plain >/dev/null && make -j16 FLAVOR=san >/dev/null || exit 2
 rc=0
 for fl in plain san; do
   [ -x build/$fl/vsim ] || continue
